@@ -171,6 +171,7 @@ pub fn one_run(ctx: &Ctx, out: &mut Outcome, run_seed: u64) {
         liveness: false,
         flood: false,
         max_len: 400_000,
+        overload: false,
     };
     let mut mons: Vec<Box<dyn Monitor>> = vec![
         Box::new(IntegrityOracle::new("C03")),
